@@ -509,3 +509,6 @@ for _h in ("c02_order_async_refake", "c02_order_async_refake2"):
 import verus_lock  # noqa: E402
 VERUS["lock_nopoison"] = dict(props=["C04", "C05"], builder=verus_lock.build, fns=[(INJ, "lock")], expect_verified=1,
                               shared={"C04.lock.guard-of-this-mutex": ["C05"], "C05.lock.never-panics": ["C04"]})
+
+H("c15_entry_macos", module="verif_arm64.rs", variant="macos", props=["C15", "C11", "C12", "C03"], fns=[(A64P, "apply_branch_patch"), (A64G, "maybe_emit_long_jump")], covers=["COVER:end", "COVER:long-form", "COVER:short-form"],
+  shared={"C15.entry.macos.lands": ["C11"]})
